@@ -137,7 +137,12 @@ func main() {
 		buildArgs = append(buildArgs, "-modfile="+filepath.Join(work, "go.mod"))
 		fmt.Printf("NOTE: building against VERIF_REPO=%s instead of /repo\n", repo)
 	}
-	buildArgs = append(buildArgs, "-o", child, "./cmd/vchild")
+	// the child of one property links only that property's workload package (cmd/vchild/cNN)
+	pkg := "./cmd/vchild"
+	if _, err := os.Stat(filepath.Join(verifDir, "harness", "cmd", "vchild", strings.ToLower(*prop), "main.go")); err == nil {
+		pkg = "./cmd/vchild/" + strings.ToLower(*prop)
+	}
+	buildArgs = append(buildArgs, "-o", child, pkg)
 	b := exec.Command("go", buildArgs...)
 	b.Dir = filepath.Join(verifDir, "harness")
 	b.Env = env()
